@@ -23,6 +23,8 @@ for d in sorted(glob.glob(os.path.join(ROOT, "seeded", "S*-C*"))):
     first = next((r["results"][prop]["exit"] for r in runs if prop in r["results"]), "-")
     s = summ.get(sid)
     final = ("%s %s exit %s (%s)" % (s[1], s[2], s[3], s[4])) if s else "-"
+    if s and len(s) >= 6 and s[5] != "1":
+        final += " [%s quick: exit %s]" % (prop, s[5])
     others = sorted({c for r in runs for c, v in r["results"].items() if c != prop and v["exit"] == 1})
     if others:
         final += "; also " + ", ".join(others)
